@@ -31,7 +31,6 @@ pub open spec fn strings_view(v: Seq<String>) -> Seq<Seq<char>> { Seq::new(v.len
 pub fn __join_newline(v: &Vec<String>) -> (r: String) ensures r@ == join_nl(strings_view(v@)) { v.join("\n") }
 // str::lines() collected: the document as the sequence of its lines (std's splitting at LF / CR LF is uninterpreted)
 pub uninterp spec fn str_lines(text: Seq<char>) -> Seq<Seq<char>>;
-pub open spec fn strs_view(v: Seq<&str>) -> Seq<Seq<char>> { Seq::new(v.len(), |i: int| v[i]@) }
 #[verifier::external_body]
 pub fn __lines_vec<'a>(text: &'a str) -> (r: Vec<&'a str>) ensures strs_view(r@) == str_lines(text@), r@.len() < usize::MAX { text.lines().collect() }
 #[verifier::external_body]
@@ -44,3 +43,6 @@ pub fn __derived_default_TestCaseConfig() -> (r: TestCaseConfig)
 { unimplemented!() }
 #[verifier::external_body]
 pub fn __maker_clone(m: &OpaqueMaker) -> (r: OpaqueMaker) { unimplemented!() }
+// R42: Vec<String> viewed as Vec<&str>
+#[verifier::external_body]
+pub fn __strs_of<'a>(v: &'a Vec<String>) -> (r: Vec<&'a str>) ensures strs_view(r@) == strings_view(v@) { v.iter().map(|s| s as &str).collect() }
